@@ -359,7 +359,9 @@ CHECKS["C10"] = dict(
           "re-attaching path keeps 'UxDataArray and live grid attached and every node/edge/face dimension has that grid's element count'; "
           "same_grid (same grid OBJECT for all but deep copy/grid-isel/remap/get_dual), isel_commutes_with_transpose (grid-dimension isel / subset "
           "are by NAME for every layout of the element dimension; Spec clause grid_isel_by_name + a by-name value oracle judge transpose/"
-          "expand_dims -> isel compositions), deep_copy_independent, model_meets_spec + specB_iff (the "
+          "expand_dims -> isel compositions), deep_copy_independent, copy_api_deep_independent / copy_api_shallow_same_grid (all 8 public ways of "
+          "copying incl. copy(data=x), copy(deep=..., data=x); the model decides which are deep and deep ones are judged by the Lean deepCopyB "
+          "clause on observed grid identity and array sharing), model_meets_spec + specB_iff (the "
           "decidable step spec is what the driver evaluates on the implementation's result after EVERY prefix). The full statement is false "
           "for the code as it stands and is kept as program_inv_asis_partial with Lean counterexamples asis_* (where/clip/fillna/astype/NumPy "
           "ufuncs/rolling -> plain DataArray; positional indexing of a grid dimension keeps the un-sliced grid; get_dual on meshes with nodes of "
